@@ -8,6 +8,121 @@ static void ir2c_string_init(void* sret, const char* s) {
   if (n > 15) IR2C_MODEL_LIMIT("model string longer than SSO");
   t->p = t->u.buf; t->len = n; memcpy(t->u.buf, s, n + 1);
 }
+/* ---- C library pieces used by std::stoi/stol/stoll (via __gnu_cxx::__stoa) */
+static int ir2c_errno;
+static void* M___errno_location(void) { return &ir2c_errno; }
+#define IR2C_ERANGE 34
+static uint64_t ir2c_strto(const char* s, char** end, uint32_t base, int is64, int* neg_out, int* overflow) {
+  /* exact decimal/any-base parser with the C semantics needed here: optional spaces, sign, digits */
+  const char* p = s;
+  while (*p == ' ' || (*p >= 9 && *p <= 13)) p++;
+  int neg = 0;
+  if (*p == '+' || *p == '-') { neg = (*p == '-'); p++; }
+  if (base == 0) base = 10;
+  uint64_t v = 0; int any = 0; *overflow = 0;
+  uint64_t lim = is64 ? (neg ? 0x8000000000000000ULL : 0x7fffffffffffffffULL) : (neg ? 0x8000000000000000ULL : 0x7fffffffffffffffULL);
+  for (int i = 0; i < 24; i++) {
+    int d;
+    if (*p >= '0' && *p <= '9') d = *p - '0';
+    else if (*p >= 'a' && *p <= 'z') d = *p - 'a' + 10;
+    else if (*p >= 'A' && *p <= 'Z') d = *p - 'A' + 10;
+    else break;
+    if ((uint32_t)d >= base) break;
+    if (v > (lim - (uint64_t)d) / base) { *overflow = 1; v = lim; } else if (!*overflow) v = v * base + (uint64_t)d;
+    any = 1; p++;
+  }
+  if (end) *end = (char*)(any ? p : s);
+  *neg_out = neg;
+  return v;
+}
+static uint64_t M_strtol(void* s, void* end, uint32_t base) {
+  int neg, ov; uint64_t v = ir2c_strto((const char*)s, (char**)end, base, 1, &neg, &ov);
+  if (ov) { ir2c_errno = IR2C_ERANGE; return neg ? 0x8000000000000000ULL : 0x7fffffffffffffffULL; }
+  return neg ? (uint64_t)(-(int64_t)v) : v;
+}
+static uint64_t M_strtoll(void* s, void* end, uint32_t base) { return M_strtol(s, end, base); }
+static uint64_t M___isoc23_strtol(void* s, void* end, uint32_t base) { return M_strtol(s, end, base); }
+static uint64_t M___isoc23_strtoll(void* s, void* end, uint32_t base) { return M_strtol(s, end, base); }
+
+/* ---- std::cout / std::cerr as sinks: output is discarded, the stream stays good().  The placeholder objects get a
+ * vptr whose vbase offset slot leads to a basic_ios with a ctype facet that has its widen table enabled, so that the
+ * inlined std::endl / operator<< fast paths run without touching locale code. */
+static int64_t ir2c_fake_ostream_vt[8];
+#define IR2C_R16(b) b+0,b+1,b+2,b+3,b+4,b+5,b+6,b+7,b+8,b+9,b+10,b+11,b+12,b+13,b+14,b+15
+static struct { uint8_t pre[56]; uint8_t widen_ok; uint8_t widen[256]; uint8_t rest[287]; } ir2c_fake_ctype = {
+  {0}, 1,
+  { IR2C_R16(0), IR2C_R16(16), IR2C_R16(32), IR2C_R16(48), IR2C_R16(64), IR2C_R16(80), IR2C_R16(96), IR2C_R16(112),
+    IR2C_R16(128), IR2C_R16(144), IR2C_R16(160), IR2C_R16(176), IR2C_R16(192), IR2C_R16(208), IR2C_R16(224), IR2C_R16(240) },
+  {0} };
+static void ir2c_init_ostream(void* os) {
+  ir2c_fake_ostream_vt[0] = 8;                         /* vbase offset (vptr[-3]): basic_ios follows the vptr */
+  *(void**)os = &ir2c_fake_ostream_vt[3];
+  *(void**)((char*)os + 8 + 240) = &ir2c_fake_ctype;   /* basic_ios::_M_ctype */
+}
+static void M__ZNSt8ios_base4InitC1Ev(void* p) { (void)p; }
+static void M__ZNSt8ios_base4InitD1Ev(void* p) { (void)p; }
+static void M_ir2c_models_init(void) {
+#ifdef IR2C_HAVE_XG__ZSt4cout
+  ir2c_init_ostream(&XG__ZSt4cout);
+#endif
+#ifdef IR2C_HAVE_XG__ZSt4cerr
+  ir2c_init_ostream(&XG__ZSt4cerr);
+#endif
+}
+static void* M__ZSt16__ostream_insertIcSt11char_traitsIcEERSt13basic_ostreamIT_T0_ES6_PKS3_l(void* os, void* s, uint64_t n) { (void)s; (void)n; return os; }
+static void* M__ZNSo3putEc(void* os, uint8_t c) { (void)c; return os; }
+static void* M__ZNSo5flushEv(void* os) { return os; }
+static void* M__ZNSolsEi(void* os, uint32_t v) { (void)v; return os; }
+static void* M__ZNSo9_M_insertIlEERSoT_(void* os, uint64_t v) { (void)v; return os; }
+static void* M__ZNSo9_M_insertImEERSoT_(void* os, uint64_t v) { (void)v; return os; }
+static void* M__ZNSo9_M_insertIdEERSoT_(void* os, double v) { (void)v; return os; }
+static void* M__ZNSo9_M_insertIbEERSoT_(void* os, uint8_t v) { (void)v; return os; }
+static void M__ZNKSt5ctypeIcE13_M_widen_initEv(void* ct) { (void)ct; }
+static void M__ZNSt9basic_iosIcSt11char_traitsIcEE5clearESt12_Ios_Iostate(void* ios, uint32_t st) { (void)ios; (void)st; }
+
+/* <cctype> in the "C" locale */
+static uint32_t M_isspace(uint32_t c) { return c == ' ' || (c >= 9 && c <= 13); }
+static uint32_t M_isdigit(uint32_t c) { return c >= '0' && c <= '9'; }
+static uint32_t M_isalpha(uint32_t c) { return (c >= 'a' && c <= 'z') || (c >= 'A' && c <= 'Z'); }
+static uint32_t M_isalnum(uint32_t c) { return M_isalpha(c) || M_isdigit(c); }
+static uint32_t M_isupper(uint32_t c) { return c >= 'A' && c <= 'Z'; }
+static uint32_t M_islower(uint32_t c) { return c >= 'a' && c <= 'z'; }
+static uint32_t M_tolower(uint32_t c) { return (c >= 'A' && c <= 'Z') ? c + 32 : c; }
+static uint32_t M_toupper(uint32_t c) { return (c >= 'a' && c <= 'z') ? c - 32 : c; }
+/* std::_Hash_bytes: any function of the bytes is a correct hash for find/insert/erase; iteration ORDER of unordered
+ * containers is therefore not faithful and no check depends on it. length + first + last byte keeps lookups cheap. */
+static uint64_t M__ZSt11_Hash_bytesPKvmm(void* p, uint64_t len, uint64_t seed) {
+  (void)seed;
+  const uint8_t* b = (const uint8_t*)p;
+  (void)b; (void)len; return 0;  /* one bucket chain: lookups with a symbolic key walk concrete node pointers */
+}
+/* _Prime_rehash_policy (libstdc++.so): fixed growth 13 -> 29 -> 59 -> 127 -> 257 -> 541 */
+struct ir2c_rehash_policy { float max_load; uint64_t next_resize; };
+static uint64_t ir2c_next_prime(uint64_t n) {
+  static const uint64_t pr[] = {2, 5, 13, 29, 59, 127, 257, 541, 1109, 2357, 5087, 10273, 20753, 42043};
+  for (int i = 0; i < 14; i++) if (pr[i] >= n) return pr[i];
+  IR2C_MODEL_LIMIT("hash table larger than 42043 buckets");
+  return n;
+}
+static uint64_t M__ZNKSt8__detail20_Prime_rehash_policy11_M_next_bktEm(void* self, uint64_t n) {
+  struct ir2c_rehash_policy* p = (struct ir2c_rehash_policy*)self;
+  uint64_t r = ir2c_next_prime(n);
+  p->next_resize = (uint64_t)((double)r * (double)p->max_load);   /* ceil not needed: policy only has to be monotone */
+  return r;
+}
+#ifdef IR2C_HAVE_L_i8_i64
+static struct L_i8_i64 M__ZNKSt8__detail20_Prime_rehash_policy14_M_need_rehashEmmm(void* self, uint64_t n_bkt, uint64_t n_elt, uint64_t n_ins) {
+  struct ir2c_rehash_policy* p = (struct ir2c_rehash_policy*)self;
+  struct L_i8_i64 r; r.f0 = 0; r.f1 = 0;
+  if (n_elt + n_ins > p->next_resize) {
+    uint64_t want = (uint64_t)((double)(n_elt + n_ins) / (double)p->max_load) + 1;
+    if (want < n_bkt * 2) want = n_bkt * 2;
+    if (want > n_bkt) { r.f0 = 1; r.f1 = M__ZNKSt8__detail20_Prime_rehash_policy11_M_next_bktEm(self, want); return r; }
+    p->next_resize = (uint64_t)((double)n_bkt * (double)p->max_load);
+  }
+  return r;
+}
+#endif
 /* basic_string::_M_replace(pos, len1, s, len2): libstdc++'s version decides with relational pointer comparisons whether
  * `s` aliases the string's own buffer; across distinct objects that comparison has no fixed answer in CBMC and the
  * (never taken) aliasing branch explodes symbolic execution.  Model: the standard semantics for a source that does
